@@ -709,5 +709,35 @@ def rule_width(ctx):
     return res.finish(2)
 
 
+def rule_chunks(ctx):
+    """`fold` cuts records and targets into blocks of n / k rows: `axis_chunks_iter` yields as many blocks as it takes to
+    cover all rows - k, k + 1 or more (n = 5, k = 3: five blocks of one row).  Training and validation set together are all
+    samples only if every block stays in the list the training sets are concatenated from."""
+    res = RuleResult("R-C01-chunks", "`fold` drops no block of the lists it cuts the records and targets into (no truncate / pop / drain on them)")
+    F = ctx.facts()
+    for fn in the_fn(res, F, "fold", "DatasetBase"):
+        c = fn["crate"]
+        r = Render(c)
+        key = fn_key(fn)
+        lists = {}
+        for y in walk(fn["body"]):
+            if y.get("k") == "LetStmt" and y.get("init") is not None and y["pat"].get("k") == "Bind" and any(z.get("k") == "MethodCall" and z["name"] in ("axis_chunks_iter", "axis_chunks_iter_mut", "exact_chunks", "axis_iter") for z in walk(y["init"])):
+                lists[y["pat"]["local"]] = y["pat"]["name"]
+        if not lists:
+            res.instance("%s : block lists" % key)
+            res.undecided("%s : block-lists" % key, "no list bound to the blocks of axis_chunks_iter (fail closed)", fn_loc(fn))
+            continue
+        for loc, nm in sorted(lists.items()):
+            res.instance("%s : block list `%s`" % (key, nm))
+            bad = [y for y in walk(fn["body"]) if y.get("k") == "MethodCall" and peel_refs(y["recv"]).get("local") == loc and y["name"] in ("truncate", "pop", "clear", "drain", "remove", "swap_remove", "retain", "resize", "split_off", "dedup")]
+            if bad and bad[0]["name"] == "split_off":
+                res.undecided("%s : block-list-split:%s" % (key, nm), "`%s`: whether the split-off blocks all come back is not decided" % r.e(bad[0])[:40], fn_loc(fn, bad[0].get("ln")))
+            elif bad:
+                res.violate("%s : block-list-shortened:%s" % (key, nm), "`%s` removes blocks from the list the training sets are built from: with n mod k > n / k the rows are spread over more than k + 1 blocks, and the rows of the removed ones are in no training and no validation set" % r.e(bad[0])[:50], fn_loc(fn, bad[0].get("ln")))
+            else:
+                res.ok()
+    return res.finish(2)
+
+
 def rules(tier):
-    return [rule_pair, rule_agree, rule_count, rule_mean, rule_err, rule_width, rule_cover]
+    return [rule_chunks, rule_pair, rule_agree, rule_count, rule_mean, rule_err, rule_width, rule_cover]
